@@ -15,7 +15,9 @@
          field-level lie), Relay (a transcription of each method of light/rpc/client.go in
          its order of checks), Consistent (what "consistent with a verified header" means),
          Uncommitted (fields no header commits to: S19, a stated limit),
-     (4) the properties RelaySound / RelayComplete / ServedProofsVerify over cases.
+     (4) the properties RelaySound / RelayComplete / ServedProofsVerify over cases,
+     (5) the serving side of rpc/core/tx.go (Tx and TxSearch with prove: sort, paginate, one
+         proof per result) for the statement's last sentence.
    It is used by spec/mc/C20_cases.tla (design-level exhaustive case analysis, cases are
    exported and executed on the real client) and by spec/trace/TMLightRPCTrace.tla (TLC
    judges what the REAL client did).
@@ -49,7 +51,9 @@ CONSTANTS
   Weak_NoQueryProofCheck,      \* ABCIQuery: value proof not verified
   Weak_AbsenceRawKey,          \* (v0.34.24) ABCIQuery: absence proofs verified with string(resp.Key) instead of the key path
   Weak_NoParamsHashCompare,    \* ConsensusParams: no comparison with ConsensusHash
-  Weak_ValsNotHashed           \* light block: validator set not hashed against ValidatorsHash
+  Weak_ValsNotHashed,          \* light block: validator set not hashed against ValidatorsHash
+  Weak_SearchProofFromCachedBlock  \* rpc/core TxSearch: the block is re-loaded only when the result's height is ABOVE the
+                               \*   cached block's ("don't load the same block for every tx"): wrong for descending pages
 
 M == INSTANCE TMMerkle WITH MaxLeaves <- 0, Weak_NoProofIndexBinding <- FALSE,
                             Weak_AuntLenUnchecked <- FALSE, Weak_NoLeafCheck <- FALSE
@@ -230,10 +234,11 @@ StatementKinds == {"Block", "BlockByHash", "Tx", "ABCIQuery", "BlockResults", "C
 \* in the light block the primary serves
 ProviderKinds == {"Commit", "Validators"}
 
-\* uniform argument record: h (height), i (0-based tx index), store, key, lo, hi, page, per, lc
+\* uniform argument record: h (height), i (0-based tx index), store, key, lo, hi, page, per, lc, ord
 \*   lc = "fresh": the light client holds only the trusted height 1;  "warm": it holds every height
+\*   ord = order_by of a TxSearch ("" elsewhere)
 Arg(h, i, store, key, lo, hi, page, per, lc) ==
-  [h |-> h, i |-> i, store |-> store, key |-> key, lo |-> lo, hi |-> hi, page |-> page, per |-> per, lc |-> lc]
+  [h |-> h, i |-> i, store |-> store, key |-> key, lo |-> lo, hi |-> hi, page |-> page, per |-> per, lc |-> lc, ord |-> ""]
 
 HonestBlock(C, h) == LET b == C.blocks[h] IN
   [block_id |-> b.bid, block |-> [header |-> b.header, txs |-> b.txs, evidence |-> b.evidence, last_commit |-> b.last_commit]]
@@ -823,4 +828,56 @@ ServedOK(C, h, i, tp) ==
   /\ TxProofValidate(tp, C.blocks[h].header.dh)
   /\ tp.data = C.blocks[h].txs[i + 1]
   /\ tp.proof.index = i /\ tp.proof.total = Len(C.blocks[h].txs)
+
+\* ------------------------------------------------------------------ (5) the serving side: rpc/core/tx.go
+\* "Inclusion proofs served by a full node's RPC verify against the data hash of the block they
+\* refer to" is about the FULL NODE.  Two endpoints serve proofs: Tx(hash, prove) and
+\* TxSearch(query, prove, page, per_page, order_by).
+ServeTxProof(C, h, i) == HonestTx(C, h, i).proof          \* types.Txs.Proof(i) of block h
+
+\* every indexed transaction as [h, i], ascending (height, index)
+RECURSIVE TxRefsUpTo(_, _)
+TxRefsUpTo(C, n) == IF n = 0 THEN << >>
+                    ELSE TxRefsUpTo(C, n - 1) \o Force([j \in 1..Len(C.blocks[n].txs) |-> [h |-> n, i |-> j - 1]])
+Reverse(s) == Force([j \in 1..Len(s) |-> s[Len(s) + 1 - j]])
+\* one ResultTx; bh = the block the handler took the proof from (= h unless weakened)
+SearchItem(C, r, bh) == LET b == C.blocks[r.h] IN
+  [h |-> r.h, i |-> r.i, tx |-> b.txs[r.i + 1], hash |-> TxHash(b.txs[r.i + 1]), proof |-> ServeTxProof(C, bh, r.i)]
+\* the result loop of TxSearch; cached = height of the block held across iterations (0 = none).
+\* Result "panic" when the cached block has no transaction r.i (Txs.Proof indexes out of range).
+RECURSIVE SearchLoop(_, _, _, _)
+SearchLoop(C, refs, k, cached) ==
+  IF k > Len(refs) THEN [ok |-> TRUE, txs |-> << >>]
+  ELSE LET r  == refs[k]
+           bh == IF Weak_SearchProofFromCachedBlock /\ cached # 0 /\ ~(cached < r.h) THEN cached ELSE r.h
+       IN IF r.i >= Len(C.blocks[bh].txs) THEN [ok |-> FALSE, txs |-> << >>]
+          ELSE LET rest == SearchLoop(C, refs, k + 1, bh) IN
+               IF ~rest.ok THEN rest ELSE [ok |-> TRUE, txs |-> <<SearchItem(C, r, bh)>> \o rest.txs]
+\* TxSearch("tx.height >= a.lo AND tx.height <= a.hi", prove = true, a.page, a.per, a.ord):
+\* search the index, sort, paginate, then attach a proof to every result of the page
+ServeSearch(C, a) ==
+  LET all     == TxRefsUpTo(C, C.tip)
+      matched == SelectSeq(all, LAMBDA r : r.h >= a.lo /\ r.h <= a.hi)
+      sorted  == IF a.ord = "desc" THEN Reverse(matched) ELSE matched
+      total   == Len(sorted)
+      per     == PerPage(a.per)
+      skip    == IF a.page <= 1 THEN 0 ELSE (a.page - 1) * per
+      size    == Min(per, total - skip)
+  IN IF ~PageOK(a, total) \/ a.ord \notin {"asc", "desc", ""} THEN [ok |-> FALSE, total |-> total, txs |-> << >>]
+     ELSE LET r == SearchLoop(C, SubSeq(sorted, skip + 1, skip + size), 1, 0) IN [ok |-> r.ok, total |-> total, txs |-> r.txs]
+ValidSearch(C, a) == LET all == TxRefsUpTo(C, C.tip) IN
+  a.ord \in {"asc", "desc", ""} /\ PageOK(a, Len(SelectSeq(all, LAMBDA r : r.h >= a.lo /\ r.h <= a.hi)))
+\* ServedProofsVerify for one search: the request is answered and every returned transaction comes
+\* with THE proof of that transaction in the block at ITS height
+SearchItemOK(C, t) ==
+  /\ t.h \in 1..C.tip /\ t.i >= 0 /\ t.i < Len(C.blocks[t.h].txs)
+  /\ t.tx = C.blocks[t.h].txs[t.i + 1] /\ t.hash = TxHash(t.tx)
+  /\ ServedOK(C, t.h, t.i, t.proof)
+SearchServedOK(C, a) ==
+  LET r == ServeSearch(C, a) IN ValidSearch(C, a) => (r.ok /\ \A k \in 1..Len(r.txs) : SearchItemOK(C, r.txs[k]))
+\* the searches enumerated: height ranges x order x per_page x every valid page
+SearchArgs(C) ==
+  LET base(lo, hi, pg, per, o) == [Arg(0, 0, "", "", lo, hi, pg, per, "warm") EXCEPT !.ord = o] IN
+  {x \in {base(q[1], q[2], pg, per, o) : q \in {<<1, C.tip>>, <<2, 3>>, <<3, C.tip>>, <<C.tip - 1, C.tip - 1>>},
+                                         pg \in 0..7, per \in {0, 1, 2, 4}, o \in {"asc", "desc", ""}} : ValidSearch(C, x)}
 =============================================================================
